@@ -29,7 +29,11 @@ def gen(rng, k, dll=None, big=False, presend=False):
         dll, fd, unit = 'j1939-22', True, 60
         size = 65536 + rng.randint(0, 200)
         role = 'stack-responder'
-    directed_grant = (not fd) and (not big) and k % 4 == 1
+    if k % 25 == 3 and not forced:
+        # the largest J1939-21 message there is (1785 bytes = 255 packets), the stack receiving it: connection mode and broadcast in turn
+        dll, fd, unit = 'j1939-21', False, 7
+        size, role, bam = 1785, 'stack-responder', (k % 50 == 3)
+    directed_grant = (not fd) and (not big) and k % 4 == 1 and size != 1785
     if directed_grant:
         # the stack as responder of a message whose size is a multiple of 7 (and of one that is not), with a window that
         # leaves a partial last window: the follow-up CTS must grant exactly what remains
@@ -41,6 +45,11 @@ def gen(rng, k, dll=None, big=False, presend=False):
         max_cmdt = rng.choice([2, 3, 4, 5])
     cmdt_iv = rng.choice([None, None, None, 0.001, 0.005, 0.02, 0.05])
     bam_iv = rng.choice([None, None, 0.01, 0.05, 0.1, 0.19, rng.randint(10, 190) / 1000, rng.choice([43, 51, 59, 71, 86, 102, 113, 139]) / 1000])   # any whole number of milliseconds
+    if k % 15 == 2 and not forced and not directed_grant and size != 1785:
+        # a broadcast of the stack with a configured packet interval of some whole number of milliseconds (values whose binary
+        # fraction lies just below the decimal one among them): the packets are at least that far apart
+        role, bam = 'stack-originator', True
+        bam_iv = rng.choice([43, 51, 59, 71, 86, 102, 113, 139, rng.randint(10, 190)]) / 1000
     pf = rng.choice([x for x in range(0, 240) if x not in (0xEA, 0xEB, 0xEC, 0xEE, 0x4D, 0x4E, 0x25)])
     if bam and rng.random() < 0.5:
         pf = rng.randint(240, 255)
